@@ -79,6 +79,16 @@ def _real(case, F, G, Bc):
     else:
         out['open'] = mh.open(F, Bc)
         out['close'] = mh.close(F, Bc)
+    out['_extra'] = {}
+    if case.get('outbuf'):     # the other wrappers that take `out=`: a separate pre-dirtied buffer
+        b3, b4, b5 = _dirty(case, F, 5), _dirty(case, F, 6), _dirty(case, F, 2)
+        out['_extra']['thopen:out=fresh-dirty'] = (mh.morph.tophat_open(F, Bc, out=b3), b3, 'thopen')
+        out['_extra']['thclose:out=fresh-dirty'] = (mh.morph.tophat_close(F, Bc, out=b4), b4, 'thclose')
+        out['_extra']['cerode:out=fresh-dirty'] = (mh.cerode(F, G, Bc, out=b5), b5, 'cerode')
+    if case.get('alias'):      # `out=` is the input image itself (elementwise last stage: the top-hats)
+        f1, f2 = np.ascontiguousarray(F).copy(), np.ascontiguousarray(F).copy()
+        out['_extra']['thopen:out=alias-f'] = (mh.morph.tophat_open(f1, Bc, out=f1), f1, 'thopen')
+        out['_extra']['thclose:out=alias-f'] = (mh.morph.tophat_close(f2, Bc, out=f2), f2, 'thclose')
     out['cerode'] = mh.cerode(F, G, Bc)
     out['cdilate'] = mh.cdilate(F, G, Bc, case['n'])
     out['thopen'] = mh.morph.tophat_open(F, Bc)
@@ -100,8 +110,9 @@ def _proved_laws(case, dtype, f0, g0, F, G, Bc, R):
     else:
         adm = all(h == lo or 0 <= h <= hi for h in hs)      # AdmissibleEntry (unsigned: lo = 0 is itself a height-range value)
         member = [h != lo for h in hs]
+    info = dict(proved_laws='element-not-admissible')
     if not adm:
-        return fnd
+        return fnd, info
     H = [h for h, m in zip(hs, member) if m]
     Hmax = max(H) if H else 0
     isb = dtype == 'bool'
@@ -139,6 +150,8 @@ def _proved_laws(case, dtype, f0, g0, F, G, Bc, R):
         rhs = _le(f0, mh.erode(G, Bc))
         if lhs != rhs:
             bad('adjunction', dilate_le_g=lhs, f_le_erode=rhs)
+        info['adjunction'] = 'both' if lhs else 'neither'
+    info['proved_laws'] = '+'.join(['increasing'] + [n for n, c in (('open', hiclear_f), ('close', below_f), ('bounds', centre_member)) if c])
     if centre_member:  # C02_cerode_cdilate_bounds_signed / C02_cerode_bounds + C02_cdilate_bounds
         mn, mx = np.minimum(f0, g0), np.maximum(f0, g0)
         if not (_le(mn, R['cdilate']) and _le(R['cdilate'], g0)):
@@ -158,7 +171,7 @@ def _proved_laws(case, dtype, f0, g0, F, G, Bc, R):
             bad('tophat_open:min', got=_ints(R['thopen']))
         if not np.array_equal(_O(R['thclose']), np.minimum(_O(R['close']) - fO, hi)):
             bad('tophat_close:min', got=_ints(R['thclose']))
-    return fnd
+    return fnd, info
 
 
 def _eval_ops(cases):
@@ -192,8 +205,16 @@ def _eval_ops(cases):
             for op, buf in zip(('openbuf', 'closebuf'), R['_bufs']):
                 if core.ints(drv[op]) != _ints(R[op[:-3]]):
                     fnd.append(dict(kind='model', key=f'{op}-model', detail=dict(got=_ints(R[op[:-3]]), model=core.ints(drv[op]), buf=buf)))
+        for key, (got, buf, op) in R['_extra'].items():
+            # same specification as the out-less call (which is itself judged against the model and the definition)
+            if got is not buf:
+                fnd.append(dict(kind='model', key=f'{key}:not-returned', detail={}))
+            if _ints(got) != _ints(R[op]):
+                fnd.append(dict(kind='property' if lawful else 'model', key=key, detail=dict(got=_ints(got), without_out=_ints(R[op]))))
+        pl = {}
         if not lawful:
-            fnd.extend(_proved_laws(case, dtype, f0, g0, F, G, Bc, R))
+            pf, pl = _proved_laws(case, dtype, f0, g0, F, G, Bc, R)
+            fnd.extend(pf)
 
         def bad(key, **detail):
             fnd.append(dict(kind='property', key=key, detail=detail))
@@ -254,8 +275,8 @@ def _eval_ops(cases):
                                   elem=case.get('elem', '?'), pair=case.get('pair', '?'), symstar=drv['symstar'],
                                   domain=('clear' if (clearf and clearg) else 'f-clear' if clearf else 'saturating') if lawful
                                   else ('signed' if dtype not in UNSIGNED and dtype != 'bool' else 'user-elem'),
-                                  out=('dirty-buffer' if case.get('outbuf') else 'fresh'),
-                                  adjunction=tag_adj)))
+                                  out=('+'.join(n for n, c in (('fresh-dirty', case.get('outbuf')), ('alias-f', case.get('alias'))) if c) or 'none'),
+                                  adjunction=pl.get('adjunction', tag_adj), proved_laws=pl.get('proved_laws', 'statement'))))
     return res
 
 
@@ -281,27 +302,48 @@ def _eval_subm(case):
     A = _arr(alla, dtype, (len(alla),))
     B = _arr(allb, dtype, (len(allb),))
     layout = case.get('layout', 'C')
+    mode = case.get('outmode', 'none')
     Al, Bl = gen.relayout(A, layout), gen.relayout(B, layout)
-    Bb = Bl.copy()
-    got = _ints(mh.morph.subm(Al, Bl))
+    Ab, Bb = Al.copy(), Bl.copy()
+    # `out=`: _get_output accepts a C-contiguous array of the dtype and shape of `a`. alias-a is the documented in-place form
+    # ("Pass a as output to subtract in-place"); alias-b and a pre-dirtied separate buffer are accepted by the wrapper as well.
+    if mode == 'alias-a':
+        Al = np.ascontiguousarray(Al).copy()
+        res = mh.morph.subm(Al, Bl, out=Al); same = res is Al
+    elif mode == 'alias-b':
+        Bl = np.ascontiguousarray(Bl).copy()
+        res = mh.morph.subm(Al, Bl, out=Bl); same = res is Bl
+    elif mode == 'fresh-dirty':
+        lo_, hi_ = gen.dt_range(dtype)
+        buf = _arr([(lo_ + (i * 2654435761 + 12345) % (hi_ - lo_ + 1)) if dtype != 'bool' else (i + 1) % 2 for i in range(len(alla))],
+                   dtype, (len(alla),))
+        res = mh.morph.subm(Al, Bl, out=buf); same = res is buf
+    else:
+        res = mh.morph.subm(Al, Bl); same = True
+    got = _ints(res)
     drv = core.drive([f"c02 kind=subm dt={gen.DT_NAME[dtype]} a={gen.enc_arr(alla)} b={gen.enc_arr(allb)}"])[0]
     model, spec = core.ints(drv['model']), core.ints(drv['spec'])
     fnd = []
+    sfx = '' if mode == 'none' else f':out={mode}'
     bad = [i for i, (x, y) in enumerate(zip(got, spec)) if x != y]
     if bad:
         i = bad[0]
-        fnd.append(dict(kind='property', key=f'subm:{dtype}', detail=dict(a=alla[i], b=allb[i], got=got[i], spec=spec[i], n=len(bad)),
-                        case=dict(block='subm-rand', dtype=dtype, a=[alla[i]], b=[allb[i]], layout=layout)))
+        fnd.append(dict(kind='property', key=f'subm:{dtype}{sfx}', detail=dict(a=alla[i], b=allb[i], got=got[i], spec=spec[i], n=len(bad)),
+                        case=dict(block='subm-rand', dtype=dtype, a=[alla[i]], b=[allb[i]], layout=layout, outmode=mode)))
     badm = [i for i, (x, y) in enumerate(zip(got, model)) if x != y]
     if badm and not bad:
         i = badm[0]
-        fnd.append(dict(kind='model', key=f'subm-model:{dtype}', detail=dict(a=alla[i], b=allb[i], got=got[i], model=model[i])))
-    if not np.array_equal(Bb, Bl):
+        fnd.append(dict(kind='model', key=f'subm-model:{dtype}{sfx}', detail=dict(a=alla[i], b=allb[i], got=got[i], model=model[i])))
+    if not same:
+        fnd.append(dict(kind='model', key=f'subm:out-not-returned{sfx}', detail={}))
+    if mode != 'alias-b' and not np.array_equal(Bb, Bl):
         fnd.append(dict(kind='property', key='subm:second-argument-modified', detail={}))
+    if mode != 'alias-a' and not np.array_equal(Ab, Al):
+        fnd.append(dict(kind='property', key='subm:first-argument-modified', detail={}))
     lo, hi = gen.dt_range(dtype)
     sat = sum(1 for x, y in zip(alla, allb) if not (lo <= x - y <= hi))
     return dict(findings=fnd, n=len(alla), nontrivial_n=sat, nontrivial=False, sig=None,
-                tags=dict(kind=case['block'], dtype=dtype, layout=layout))
+                tags=dict(kind=case['block'], dtype=dtype, layout=layout, out=mode))
 
 
 def evaluate(cases):
@@ -428,6 +470,8 @@ def _ops_case(rng):
     if rng.random() < 0.3:     # open/close write into a caller buffer with arbitrary old contents
         bv = gen.boundary_values(dtype)
         case['outbuf'] = [rng.choice(bv) if rng.random() < 0.5 else rng.randint(lo, hi) for _ in range(rng.choice([1, 3, 8]))]
+    if rng.random() < 0.3:     # top-hats written over their own input
+        case['alias'] = True
     return case
 
 
@@ -460,12 +504,16 @@ def cases(rng, tier):
             vals = list(range(lo, hi + 1))
             for k in range(0, 256, 16):
                 out.append(dict(block='subm-exh', dtype=dtype, **{'as': vals[k:k + 16]}))
+                # every pair once more with `out=` (in place on a, a dirty separate buffer, in place on b in turn)
+                out.append(dict(block='subm-exh', dtype=dtype, outmode=('alias-a', 'fresh-dirty', 'alias-a', 'alias-b')[(k // 16) % 4],
+                                **{'as': vals[k:k + 16]}))
     for dtype in ['bool', 'uint16', 'uint32', 'uint64', 'int16', 'int32', 'int64', 'uint8', 'int8']:
         per = 2500
         total = nsub if dtype not in ('uint8', 'int8', 'bool') else nsub // 10
         for k in range(0, total, per):
             a, b = _subm_rand(rng, dtype, min(per, total - k))
-            out.append(dict(block='subm-rand', dtype=dtype, a=a, b=b, layout=rng.choice(['C', 'strided', 'negstride', 'offset', 'readonly'])))
+            out.append(dict(block='subm-rand', dtype=dtype, a=a, b=b, layout=rng.choice(['C', 'strided', 'negstride', 'offset', 'readonly']),
+                            outmode=rng.choice(['none', 'none', 'alias-a', 'alias-a', 'fresh-dirty', 'alias-b'])))
     for _ in range(nops):
         out.append(_ops_case(rng))
     return out
@@ -489,6 +537,8 @@ def shrink(case):
         yield dict(case, n=1)
     if case.get('usenone'):
         yield dict(case, usenone=False)
+    if case.get('alias'):
+        yield {k: v for k, v in case.items() if k != 'alias'}
     if case.get('outbuf'):
         yield {k: v for k, v in case.items() if k != 'outbuf'}
         if any(v != 0 for v in case['outbuf']) and case['dtype'] != 'bool':
